@@ -80,19 +80,25 @@ CLAIMS = {
             "transaction and erroring call; strace shows no write/fallocate outside commits. Engine model: close + reopen changes neither the "
             "data nor its meaning and is invisible to the next writer (EngineReopen.run_tx_reopen).",
             "file-hash and strace observations are the tie to the code", "Coq lemmas + file-hash / strace differential", "6/C06"),
-    "C07": ("translation_validation",
-            "Inside write transactions the full read API is compared with the extracted reference after every single mutation; the "
-            "cursor machine itself is proved (C08) for every view without empty branches, including views with empty leaves, but the "
-            "in-transaction half is proved for POINT READS on the engine model (EngineTxReads.tx_reads: after any prefix of a transaction's "
-            "operations a lookup anywhere in the nested bucket tree answers what the reference answers; EngineTop.read_own_put / "
-            "read_own_delete) and rests on the differential runs for scans / seeks / ranges over the overlay, which Coq does not model.",
-            "reference = coq/spec/Spec.v extracted", "differential against the extracted reference; cursor theorems for the view", "6/C07"),
+    "C07": ("proof",
+            "Coq, engine model with reads inside a write transaction (model/EngineScan.v: the overlay of materialised nodes over mapped "
+            "pages as the tree the cursor walks; proofs/EngineTxScan.v): on every state with well-formed pages, after ANY list of "
+            "operations of a write transaction, at ANY nested bucket path, the cursor machine's get / full scan / every range / seek and "
+            "the engine's own point lookup answer exactly what the reference answers in sem_tx ops (abs_db st) -- pairs and nested-bucket "
+            "markers in key order, leaves the transaction has emptied included, the library's BucketMissing / IncompatibleValue for a path "
+            "that is not a bucket (tx_scan_spec, tx_reads_cursor, tx_reads; read_own_put / read_own_delete). The model is tied to the library "
+            "by correspondence: every get / scan / seek / range the library answers inside a write transaction is sent to the extracted "
+            "model and must be identical (thousands per run), every commit page for page; the full read API is also compared with the "
+            "extracted reference after every single mutation; model-side search evaluates the statement on every bucket of exhaustive shape families.",
+            "that model/Engine.v + EngineScan.v are what the Rust code does is checked by correspondence, not proved; side conditions = "
+            "the model's fuels (op_ok)", "Coq refinement theorem for in-transaction reads + exact model-vs-library correspondence of every in-transaction read", "6/C07, App. K layer 22"),
     "C08": ("proof",
             "Coq (CursorFacts, SearchFacts, SeekFacts): cursor_all, cursor_end / never panics, seek_spec, range_spec (all nine bound "
             "kinds), filters, get_spec for every well-formed tree; the extracted cursor machine is run on the decoded committed files and "
             "must agree call-for-call with the library (tens of thousands of calls per run); legacy machine refuted; on every tree the engine model "
             "commits, after any history and for any bucket, get / scan / range / seek equal the reference (EngineReadBridge.history_read, "
-            "EngineReadFull.history_read_full).",
+            "EngineReadFull.history_read_full), and so they do inside a write transaction on the overlay, emptied leaves included "
+            "(EngineTxScan.tx_reads_cursor).",
             "binary search is Rust's slice::binary_search_by transliterated by hand", "Coq theorems + exact model-vs-library correspondence", "6/C08, App. H"),
     "C10": ("proof",
             "Coq (FreelistFacts, PLFacts, PLProps): the allocator returns the first run of n consecutive free ids and fails only when no "
